@@ -422,7 +422,28 @@ def measure_path(tid, ts, pos, u, L, lo, hi, xf, max_strain, strain_inc, tamper=
             uu = np.asarray(u(np.nan, st[1]), dtype=float)
             umax = max(umax, float(np.abs(uu).max()))
             k = seg_of(tm)
-            segs[k][1] = max(segs[k][1], float(np.abs((st[2] - st[0]) / (2 * h) - uu).max()))
+            res = float(np.abs((st[2] - st[0]) / (2 * h) - uu).max())
+            if res > 1e-3 * max(umax, float(np.abs(uu).max())):
+                # the difference quotient is an estimate of the derivative only where the path is smooth over the
+                # stencil; where the velocity field turns over a distance far shorter than a solver step (a path
+                # grazing the singular corner of the corner flow) the estimate is repeated on shrinking stencils and
+                # the smallest residual counts - a derivative that really differs from u differs at every scale
+                hh = h
+                for _ in range(6):
+                    hh /= 4.0
+                    a, b = np.asarray(pos(tm - hh), dtype=float), np.asarray(pos(tm + hh), dtype=float)
+                    res = min(res, float(np.abs((b - a) / (2 * hh) - uu).max()))
+            # "within integration tolerance": the returned positions are accurate to the solver's tolerances (defaults
+            # atol 1e-8, rtol 1e-5), so the velocity the path follows is that of a point within that distance - where the
+            # field changes by |grad u| x tolerance (next to the singular corner of the corner flow |grad u| ~ U / r
+            # reaches 1e8) a difference of that size between dx/dt and u(x) is inside the statement
+            try:
+                gmax = float(np.abs(np.asarray(L(np.nan, st[1]), dtype=float)).max())
+            except Exception:  # noqa: BLE001
+                gmax = 0.0
+            if np.isfinite(gmax):
+                res = max(0.0, res - 10.0 * gmax * (1e-8 + 1e-5 * float(np.abs(st[1]).max())))
+            segs[k][1] = max(segs[k][1], res)
     for k, (out, dres, dstrain) in enumerate(segs, start=1):
         ode = dres / umax if umax > 0 else (0.0 if dres == 0 else math.inf)
         ev.append(dict(tid=tid, ev="Seg", k=k, ode_e6=cap(ode * 1e6), out_e6=cap(max(out, 0.0) * 1e6), dStrain_e6=cap(dstrain * 1e6, 200_000_000)))
